@@ -121,8 +121,9 @@ ASSUME_DEV = [
 
 
 def c01(pid, tier, replay):
-    return device_check(pid, tier, replay, ["C01_"], keys_jobs(tier),
-                        drivers=[devdrivers.random_keys], assumptions=ASSUME_DEV)
+    # key-emulating axes are keys too: their quiescence and their disconnect clean-up belong to C01
+    return device_check(pid, tier, replay, ["C01_"], keys_jobs(tier) + axis_jobs("akey", [["ABS_HAT0X"], ["ABS_RX"]], tier),
+                        drivers=[devdrivers.random_keys, devdrivers.c08_batches], assumptions=ASSUME_DEV)
 
 
 def c02(pid, tier, replay):
@@ -743,34 +744,42 @@ def run_led(scr, batches, tag="led", race=False, extra_env=None):
 
 
 def led_jobs(scr, out, tier):
-    consts = {"OctB": 1, "ChanB": 0 if tier == "quick" else 1, "MaxHeld": 1 if tier == "quick" else 2}
-    def cfgtext(view, dump, invs):
-        lines = ["CONSTANTS"] + ["  %s = %s" % (k, vlib.tla_value(v)) for k, v in consts.items()]
-        lines += ["  DumpEdges = %s" % ("TRUE" if dump else "FALSE"), "INIT Init", "NEXT Next", "CHECK_DEADLOCK FALSE", "ACTION_CONSTRAINT Dump"]
-        if invs:
-            lines += ["INVARIANTS NoViolation CntConsistent TrackedAreHeld", "PROPERTY ExtOnlyByMidiOrPanic"]
-        lines.append("VIEW " + view)
-        return "\n".join(lines) + "\n"
-    res = vlib.run_tlc(scr, "MC_led", cfgtext("ViewLed", False, True), workers=8, timeout=1500)
-    if not res.completed:
-        raise Infra("MC_led failed:\n" + res.tail(40))
-    out.add_mc("MC_led %s" % consts, res)
-    dump = scr.fresh("dump") + ".out"
-    res2 = vlib.run_tlc(scr, "MC_led", cfgtext("ViewStLed", True, False), workers=8, timeout=1500, outname=dump)
-    if not res2.completed:
-        raise Infra("MC_led dump failed:\n" + res2.tail(20))
-    tg = scr.build_tool("tourgen")
-    walks = scr.fresh("walks") + ".json"
-    r = subprocess.run([tg, "-cap", "400", "-o", walks, dump], stdout=subprocess.PIPE, stderr=subprocess.PIPE, text=True)
-    os.remove(dump)
-    if r.returncode != 0:
-        raise Infra("tourgen failed: " + r.stderr)
-    with open(walks) as f:
-        d = json.load(f)
-    d["cfg"] = devcheck.fix_cfg_json(d["cfg"])
-    d["graph_states"], d["graph_transitions"] = res2.distinct, res2.generated
-    out.add_tour("MC_led", d)
-    return d
+    """Bounded LED models: quick = octave cut and semitone cut; thorough = the product with two channels, two held keys."""
+    if tier == "quick":
+        cfgs = [{"OctB": 1, "SemiB": 0, "ChanB": 0, "MaxHeld": 1}, {"OctB": 0, "SemiB": 2, "ChanB": 1, "MaxHeld": 0}]
+    else:
+        cfgs = [{"OctB": 1, "SemiB": 1, "ChanB": 1, "MaxHeld": 1}, {"OctB": 2, "SemiB": 0, "ChanB": 0, "MaxHeld": 2}]
+    allwalks, cfgj = [], None
+    for consts in cfgs:
+        def cfgtext(view, dump, invs):
+            lines = ["CONSTANTS"] + ["  %s = %s" % (k, vlib.tla_value(v)) for k, v in consts.items()]
+            lines += ["  DumpEdges = %s" % ("TRUE" if dump else "FALSE"), "INIT Init", "NEXT Next", "CHECK_DEADLOCK FALSE", "ACTION_CONSTRAINT Dump"]
+            if invs:
+                lines += ["INVARIANTS NoViolation CntConsistent TrackedAreHeld", "PROPERTY ExtOnlyByMidiOrPanic"]
+            lines.append("VIEW " + view)
+            return "\n".join(lines) + "\n"
+        res = vlib.run_tlc(scr, "MC_led", cfgtext("ViewLed", False, True), workers=8, timeout=2400)
+        if not res.completed:
+            raise Infra("MC_led failed:\n" + res.tail(40))
+        out.add_mc("MC_led %s" % consts, res)
+        dump = scr.fresh("dump") + ".out"
+        res2 = vlib.run_tlc(scr, "MC_led", cfgtext("ViewStLed", True, False), workers=8, timeout=2400, outname=dump)
+        if not res2.completed:
+            raise Infra("MC_led dump failed:\n" + res2.tail(20))
+        tg = scr.build_tool("tourgen")
+        walks = scr.fresh("walks") + ".json"
+        r = subprocess.run([tg, "-cap", "400", "-o", walks, dump], stdout=subprocess.PIPE, stderr=subprocess.PIPE, text=True)
+        os.remove(dump)
+        if r.returncode != 0:
+            raise Infra("tourgen failed: " + r.stderr)
+        with open(walks) as f:
+            d = json.load(f)
+        d["cfg"] = devcheck.fix_cfg_json(d["cfg"])
+        d["graph_states"], d["graph_transitions"] = res2.distinct, res2.generated
+        out.add_tour("MC_led %s" % consts, d)
+        allwalks.extend(d["walks"])
+        cfgj = d["cfg"]
+    return {"cfg": cfgj, "walks": allwalks}
 
 
 def led_batches(cfg, walks, ngroups):
